@@ -431,6 +431,9 @@ func (d *c17Daemon) step(id string, r *rand.Rand) bool {
 			c.Distinct("ok|strategy-choice")
 		case 5: // cs/config
 			capv := uint64(r.Intn(200))
+			if r.Intn(4) == 0 { // capacities around and beyond 16 bits (NFD's default is 65536)
+				capv = []uint64{65535, 65536, 65537, 70000, 1 << 20, 1<<32 + 5}[r.Intn(6)]
+			}
 			a := &mgmt.ControlArgs{Capacity: u64p(capv)}
 			d.log = append(d.log, fmt.Sprintf("%s: cs/config capacity=%d", id, capv))
 			cp := c17Params(a)
